@@ -57,11 +57,16 @@ def _schedule(rng, n_a, n_b):
 def c18_gen(seed, run, tier):
     spec = gen_data.gen_spec("C18", seed, run, tier, gen_data.PROFILE_C18)
     trng = prng.stream(seed, "C18", run, "tenant")
-    if trng.random() < 0.15:
+    if trng.random() < 0.2:
         # a second, unrelated dataset served by the same process, its requests interleaved with the first's
         prof = dict(gen_data.PROFILE_C18, faults=["rng"], p_fault_kind=0.2)
         other = gen_data.gen_spec("C18", seed, "%s-tenant1" % run, tier, prof)
-        spec["others"] = [{"world": other["world"], "config": other["config"], "ops": other["ops"][:12], "pre_ops": []}]
+        ops_b = other["ops"][:12]
+        if trng.random() < 0.6:
+            # the same analysis run on the other dataset: tenant 1 mirrors tenant 0's request shapes
+            nb = len(other["world"]["inputs"])
+            ops_b = [dict(op, input=op["input"] % nb, ds=0) for op in spec["ops"] if op["op"] == "req"][:14] or ops_b
+        spec["others"] = [{"world": other["world"], "config": other["config"], "ops": ops_b, "pre_ops": []}]
         spec["schedule"] = _schedule(trng, len(spec["ops"]), len(spec["others"][0]["ops"]))
     return spec
 
